@@ -13,7 +13,7 @@ import (
 
 func init() {
 	register(&Rule{ID: "R-vm-typestate", Floor: 80, Run: ruleR2VMTypestate,
-		Doc: "effect of every opcode clause of the VM's dispatcher on the handler stack (Core.ExceptionCatchLabels) and on the call stack (Core.CallStack), per path: SetTryLabel grows the handler stack by exactly one entry on every normal path, PopTryLabel shrinks it by exactly one, no other opcode touches it; Call_Imm and Call_Val on a VM function push exactly one frame, Return pops exactly one, Call_Val on any other callee kind and every other opcode leave the call stack alone (the exception branch of Core.Run is R-exception-unwind's). Necessary for C11/C16/C01/C09: the compiler emits exactly one PopTryLabel per SetTryLabel on both continuations (R-pairing-emit), so a SetTryLabel that pushes only conditionally makes the matching pop remove an OUTER handler (recursive activation of the same try: the throw of the outer activation is then uncaught or delivered elsewhere); a call that pushes no frame or two frames, or a return that pops none, breaks every later return address and the call-depth limit"})
+		Doc: "effect of every opcode clause of the VM's dispatcher on the handler stack (Core.ExceptionCatchLabels) and on the call stack (Core.CallStack), per path: SetTryLabel grows the handler stack by exactly one entry on every normal path, PopTryLabel shrinks it by exactly one, no other opcode touches it; Call_Imm and Call_Val on a VM function push exactly one frame, Return pops exactly one, Call_Val on any other callee kind and every other opcode leave the call stack alone (the exception branch of Core.Run is R-exception-unwind's). Necessary for C11/C16/C01/C09: the compiler emits exactly one PopTryLabel per SetTryLabel on both continuations (R-pairing-emit), so a SetTryLabel that pushes only conditionally makes the matching pop remove an OUTER handler (recursive activation of the same try: the throw of the outer activation is then uncaught or delivered elsewhere); a call that pushes no frame or two frames, or a return that pops none, breaks every later return address and the call-depth limit. Core.Run: the normal-completion signal (nil) is sent only on paths whose last call-stack-relevant event is a test that found the call stack empty; a routine whose instruction pointer runs past its end (no explicit Return, e.g. the @init of an imported module) pops exactly one frame like Return and the dispatch loop goes on (C15: otherwise the @init chain stops after the first imported module); a loop over the call stack / handler stack that selects an entry by an early exit visits the innermost entry first (C11: the nearest dynamically enclosing handler belongs to the innermost activation)"})
 	register(&Rule{ID: "R-spawn-clone", Floor: 1, Run: ruleR2SpawnClone,
 		Doc: "every value the in-language spawn instruction hands to the new core (the []Value argument of the VM's core-spawning method called from a *Core method) is the result of Value.Clone() on EVERY path from the operand-stack pop to the call: path-exact, cloning under a condition on the value's kind (or any other condition) leaves a path on which the popped value itself crosses. Necessary for C17: the new core runs concurrently; a list, object, any-object, option (Inner pointer), range or iterator that is not deep-copied is mutated/read by two goroutines without synchronisation and the spawned function does not run with the argument values given at the spawn"})
 }
@@ -33,6 +33,8 @@ type r2FieldSumm struct {
 	f      *types.Var
 	roles  *vmStackRoles
 	writes map[*types.Func]bool
+	memo   map[*types.Func]*int
+	busy   map[*types.Func]bool
 }
 
 func r2NewFieldSumm(c *Ctx, fns []*vmFn, f *types.Var, roles *vmStackRoles) *r2FieldSumm {
@@ -101,9 +103,61 @@ func (s *r2FieldSumm) call(g *types.Func) (delta int, unknown bool) {
 		return -n, false
 	}
 	if s.writes[g] {
+		// a helper built from the primitives: its effect when uniform over its paths
+		if d, ok := s.helperEffect(g); ok {
+			return d, false
+		}
 		return 0, true
 	}
 	return 0, false
+}
+
+// helperEffect: net effect of a non-primitive function of the package on the
+// field when every non-panicking path has the same, fully classified effect.
+func (s *r2FieldSumm) helperEffect(g *types.Func) (int, bool) {
+	if s.memo == nil {
+		s.memo = map[*types.Func]*int{}
+		s.busy = map[*types.Func]bool{}
+	}
+	if v, ok := s.memo[g]; ok {
+		if v == nil {
+			return 0, false
+		}
+		return *v, true
+	}
+	fn := vmDeclIndex(s.c).of(g)
+	if fn == nil || s.busy[g] {
+		return 0, false
+	}
+	s.busy[g] = true
+	defer delete(s.busy, g)
+	s.memo[g] = nil
+	res := vmWalk(vmWalkOpts{fn: fn, maxPaths: 2000})
+	if res.overflow || len(res.paths) == 0 {
+		return 0, false
+	}
+	first := true
+	d := 0
+	for i := range res.paths {
+		p := &res.paths[i]
+		if p.o.kind == cPanic {
+			continue
+		}
+		e := s.trace(fn.info, p.ev)
+		if len(e.unknown) > 0 {
+			return 0, false
+		}
+		if first {
+			d, first = e.delta, false
+		} else if e.delta != d {
+			return 0, false
+		}
+	}
+	if first {
+		return 0, false
+	}
+	s.memo[g] = &d
+	return d, true
 }
 
 func (s *r2FieldSumm) trace(info *types.Info, ev []vmEv) r2StackEff {
@@ -384,6 +438,9 @@ func ruleR2VMTypestate(c *Ctx) []Obligation {
 			obs = append(obs, Obligation{Key: prefix + "role " + role, Status: Undecided, Detail: "the dispatcher has no clause for this opcode"})
 		}
 	}
+	// round 3: typestate of Core.Run and searches over the VM's stacks
+	obs = append(obs, r3emRunObligations(c, r, cs)...)
+	obs = append(obs, r3emStackSearches(c, r, []*types.Var{handlers, r.callStack.field})...)
 	// inventory of other writers (information)
 	for _, x := range []struct {
 		f     *types.Var
